@@ -316,6 +316,12 @@ def run(run):
         C20.ob_has_parent_name(run, mir, rp, fam, only=["declare-"])
     except Unsupported as e:
         run.ob("has-parent-of-name-encoding", "E2", "kernel is encodable").inconclusive(f"unsupported construct: {e}")
+    try:
+        # the emitted Python catches exactly the listed classes: handle -> try/except translation (shared with C01)
+        from props import C01
+        C01.ob_structure(run, mir, rp, only_fns=("convert_handle",))
+    except Unsupported as e:
+        run.ob("structure-convert-handle-encoding", "E2", "kernel is encodable").inconclusive(f"unsupported construct: {e}")
     if run.clean():
         e2.validate_family(run, fam, "raises")
     rp.close()
